@@ -121,4 +121,6 @@ def run(rep):
     rep.floor('public wrappers calling the generating function', callers, 2)
     from common import include
     include(rep, 'c17', ('C17.1.parse-input',), 'parsed-text-is-the-input')
+    # the literal must survive printing: both printers get the same tokens and the text they return is handed back unmodified
+    include(rep, 'c19', ('C19.a', 'C19.e'), 'printed-text-unmodified')
     rep.analysed = {'function': q, 'template': st[1], 'wrappers': callers}
